@@ -88,6 +88,12 @@ CLAIMED = {
         text="After every rejected or failed trial (no eligible particle, all attempts vetoed) of Canonical+DisplacementMove (also a + composite), Isobaric+CellMove (any scale_atoms), GrandCanonical+ExchangeMove (insertion and deletion) and HamiltonianCanonical+HamiltonianDisplacementMove: atom count, set of per-atom arrays, every row of every array (positions, momenta, tags, charges, custom 2-d, numbers), cell and constraints equal the snapshot; exchange bookkeeping empty, particle_delta 0, particle counter, labels and pre-selections untouched. Three recorded defects remain (constraints after a rejected deletion F4, arrays created by extend F6, plain insert+delete composite F5), so this is NOT a proof of the whole property.",
         note="ASE heap contracts trusted; criteria by contract; operations, integrators, distributions, checks opaque; histories: arbitrary first trial + invariant.",
         design="§7 C03"),
+    "C05": dict(
+        category="other",
+        technique="contract-based deductive verification: DisplacementMove.on_atoms_changed, GrandCanonical.save_state and ExchangeContext.save_state on label arrays of symbolic length (array terms), plus accepted exchange trials (single and composite) through the real step/ExchangeMove/CompositeExchangeMove/save_state on the heap model; known finding F11 recorded; native GCMC runs as stand-in",
+        text="on_atoms_changed: length follows the atom count; existing labels untouched; all atoms of the inserted particle share one label which is the configured default (any integer incl. 0 and negatives) or else fresh and non-negative (different from every existing non-negative label); deletions use exactly the removed indices after the additions were appended. save_state notifies every DISTINCT move exactly once with the context's index sets whatever the particle delta or interval, advances the counter by the delta and clears the bookkeeping. Accepted trials: every label array as long as the atoms, counter = initial + insertions - deletions (composite: per particle), template never modified. Distinct particles inserted in ONE trial share a label: recorded as known finding F11, so this is NOT a proof of the whole property.",
+        note="array/ASE contracts trusted; criteria by contract; a move reachable both inside a composite and on its own in the table is outside the de-duplication (not claimed).",
+        design="§7 C05"),
 }
 PENDING_REASON = "check not yet registered in this revision (under construction; see DESIGN.md §0/§7 for the plan)"
 
